@@ -22,7 +22,7 @@ for p in props:
         na.append({"property_id":p['id'],"reason":claims['not_applicable'].get(p['id'],"check not built yet (see DESIGN.md build order)")})
 m={"version":1,
 "setup_cmd":"cd /verif/engine && GOFLAGS=-mod=mod GOPROXY=off GOSUMDB=off GOTOOLCHAIN=local go build -o /verif/bin/gosmt .",
-"hooks":{"guard":"verif-overlay","enable":"no source hooks in /repo: harnesses (/verif/harness/<pkg>/zz_verif_*.go) are injected with go/packages Overlay for the solver and go test -overlay for native replay","baseline_off_cmd":"cd /repo && go test -mod=mod -vet=off -count=1 -timeout 25m ./...","source_commits":[],"add_only":True},
+"hooks":{"guard":"verif-overlay","enable":"no source hooks in /repo: harnesses (/verif/harness/<pkg>/zz_verif_*.go) are injected with go/packages Overlay for the solver and go test -overlay for native replay","baseline_off_cmd":"for m in . lib/github.com/tendermint/ed25519 lib/golang.org/x/crypto lib/golang.org/x/net; do (cd /repo/$m && go test -mod=mod -json -vet=off -count=1 -timeout 25m ./...); done","source_commits":[],"add_only":True},
 "engines":[{"name":"gosmt","path":"/verif/engine","serves_properties":sorted(claims['claimed'].keys()),"kind_free_text":"own go/ssa symbolic executor: path-by-path symbolic execution of the real functions, SMT-LIB2 (bit-vector and relational integer encodings) to z3, solver counterexamples replayed against the natively compiled code before any VIOLATION"}],
 "checks":checks,
 "not_applicable":na,
